@@ -1,3 +1,111 @@
 package main
 
-func runChecks(repo, prop, tier, out, explain string, verbose bool) int { return 2 }
+import (
+	"fmt"
+	"os"
+	"path/filepath"
+	"runtime"
+	"runtime/debug"
+	"sort"
+	"strings"
+	"time"
+)
+
+type ruleFn func(c *Ctx)
+
+var rules = map[string]ruleFn{
+	"C03": ruleC03,
+	"C05": ruleC05,
+	"C06": ruleC06,
+}
+
+// thorough-tier extras per property (contract audit, …); run on the default configuration only.
+var thoroughExtras = map[string]ruleFn{}
+
+func configsFor(tier, repo, controls string) []LoadOpts {
+	base := LoadOpts{Repo: repo, Controls: controls}
+	if tier != "thorough" {
+		return []LoadOpts{base}
+	}
+	return []LoadOpts{
+		base,
+		{Repo: repo, Controls: controls, Tags: "verif"},
+		{Repo: repo, Controls: controls, GOARCH: "386"},
+		{Repo: repo, Controls: controls, GOOS: "windows", GOARCH: "amd64"},
+	}
+}
+
+func runChecks(repo, prop, tier, out, explain string, verbose bool) (code int) {
+	defer func() {
+		if r := recover(); r != nil {
+			fmt.Fprintf(os.Stderr, "checker panic: %v\n%s\n", r, debug.Stack())
+			code = 2
+		}
+	}()
+	abs, err := filepath.Abs(repo)
+	if err == nil {
+		repo = abs
+	}
+	var props []string
+	if prop == "all" {
+		for k := range rules {
+			props = append(props, k)
+		}
+		sort.Strings(props)
+	} else {
+		for _, p := range strings.Split(prop, ",") {
+			if _, ok := rules[p]; !ok {
+				fmt.Fprintf(os.Stderr, "no check registered for property %q\n", p)
+				return 2
+			}
+			props = append(props, p)
+		}
+	}
+	findings := loadFindings(out)
+	controls := filepath.Join(out, "controls")
+	cfgs := configsFor(tier, repo, controls)
+	ctxs := map[string][]*Ctx{}
+	starts := map[string]time.Time{}
+	for _, p := range props {
+		starts[p] = time.Now()
+	}
+	t0 := time.Now()
+	for i, lo := range cfgs {
+		p, err := Load(lo)
+		if err != nil {
+			fmt.Fprintf(os.Stderr, "analysis could not run (%s): %v\n", lo.Label(), err)
+			return 2
+		}
+		if len(p.LibFns) < 70 {
+			fmt.Fprintf(os.Stderr, "analysis could not run: only %d library functions loaded\n", len(p.LibFns))
+			return 2
+		}
+		for _, id := range props {
+			c := NewCtx(p, id, tier)
+			rules[id](c)
+			if i == 0 && tier == "thorough" {
+				if ex := thoroughExtras[id]; ex != nil {
+					ex(c)
+				}
+			}
+			ctxs[id] = append(ctxs[id], c)
+		}
+		p = nil
+		pureCache = map[any]bool{}
+		runtime.GC()
+	}
+	loadWall := time.Since(t0)
+	exit := 0
+	for _, id := range props {
+		cs := ctxs[id]
+		wall := loadWall
+		if len(props) > 1 {
+			wall = loadWall / time.Duration(len(props))
+		}
+		r := cs[0].finish(out, findings, wall, cs[1:])
+		if len(r.Viol) > 0 {
+			exit = 1
+		}
+	}
+	return exit
+}
